@@ -16,6 +16,18 @@ def two_key_model(nonlinear=True):
     return lh
 
 
+def four_key_model():
+    """like two_key_model but with four latent keys (more room for key-order effects)"""
+    import nifty.cl as ift
+    dom = ift.RGSpace(3)
+    a, b, c, d = (ift.FieldAdapter(dom, k) for k in "abcd")
+    sig = a + b.exp() + 0.5 * c + d.ptw("sin")
+    R = ift.makeOp(ift.makeField(dom, np.array([1.0, 0.5, 2.0])))
+    data = ift.makeField(dom, np.array([0.7, -0.4, 1.9]))
+    N = ift.ScalingOperator(dom, 0.25, sampling_dtype=float)
+    return ift.GaussianEnergy(data=data, inverse_covariance=N.inverse) @ (R @ sig)
+
+
 def pristine_random_state():
     """State of nifty.cl.random as a freshly started script would see it."""
     import pickle
